@@ -208,8 +208,16 @@ def gen_history(rng, tier):
             same = rng.chance(1, 3)
             va = " ".join("'e%d" % j for j in range(vlen))
             vb = " ".join(("'e%d" % j) if (same or j != pos) else "'DIFF" for j in range(vlen))
-            shape = rng.below(4)
-            if shape == 0:
+            shape = rng.below(6)
+            if shape >= 4:
+                # nesting deeper than any recursion-depth allowance of the fast comparison, few nodes in total: the two structures
+                # differ (or not) only in the innermost leaf; nested through the car / through a non-last vector slot
+                dep = rng.choice([900, 1001, 1002, 1500, 3000, 9000])
+                wrap = "(list x 'pad)" if shape == 4 else "(vector x 0)"
+                leaf_a, leaf_b = "'leaf", ("'leaf" if same else rng.choice(["'other", "12345678901234567890123", "(list 'leaf)"]))
+                src = ("(let ((mk (lambda (leaf) (let loop ((i 0) (x leaf)) (if (= i %d) x (loop (+ i 1) %s)))))) "
+                       "(let ((a (mk %s)) (b (mk %s))) (list (equal? a b) (equal? b a))))" % (dep, wrap, leaf_a, leaf_b))
+            elif shape == 0:
                 src = ("(let ((c1 (list 1 2 3)) (c2 (list 1 2 3))) (set-cdr! (cddr c1) c1) (set-cdr! (cddr c2) c2) "
                        "(let ((a (list c1 (vector %s))) (b (list c2 (vector %s)))) (list (equal? a b) (equal? b a))))" % (va, vb))
             elif shape == 1:
